@@ -106,12 +106,17 @@ def _pool(n):
 
 # ------------------------------------------------------------------- findings
 def load_findings(pid):
-    path = os.path.join(VERIF, 'known_findings.json')
-    if not os.path.exists(path):
-        return []
-    with open(path) as f:
-        data = json.load(f)
-    return [e for e in data.get('findings', []) if e.get('property') == pid]
+    import glob
+    paths = [os.path.join(VERIF, 'known_findings.json')]
+    paths += sorted(glob.glob(os.path.join(VERIF, 'findings.d', '*.json')))  # builders' fragments
+    out = []
+    for path in paths:
+        if not os.path.exists(path):
+            continue
+        with open(path) as f:
+            data = json.load(f)
+        out += [e for e in data.get('findings', []) if e.get('property') == pid]
+    return out
 
 
 def _match(entry, sig):
